@@ -473,6 +473,11 @@ func init() {
 		// case, one in rotation for a mutant) and the previously accepted body
 		last := map[string][]byte{}
 		seedsOf := map[string][][]byte{}
+		// a value handed out by a decoder belongs to the caller: it is held while the following cases are
+		// decoded (by fresh receivers) and rendered again
+		var heldR receiver
+		var heldSnap, heldKey string
+		var heldBody []byte
 		if len(a) > 2 {
 			readND(a[2], func(i int, raw []byte) error {
 				var c c03Case
@@ -495,7 +500,8 @@ func init() {
 			n++
 			v, d := consts.ProtocolVersionType(c.Ver), consts.ActiveSafetyType(c.Dialect)
 			key := fmt.Sprintf("%s/v%d/d%d", c.T, c.Ver, c.Dialect)
-			base := runDecode(tg.mk(v, d), exact(c.Body))
+			baseR := tg.mk(v, d)
+			base := runDecode(baseR, exact(c.Body))
 			cls := "accepts"
 			if base.err {
 				cls = "rejects"
@@ -538,6 +544,32 @@ func init() {
 				report(fmt.Sprintf("depends-on-memory-beyond-slice %s", key),
 					fmt.Sprintf("exact capacity vs spare capacity: %s | %s (body %x)", diffWindow(base.String(), t1.String()), diffWindow(base.String(), t2.String()), []byte(c.Body)))
 				return nil
+			}
+			if heldR != nil {
+				now := ""
+				if p := protect(func() { now = heldR.snap() }); p != "" {
+					now = "panic:" + p
+				}
+				if now != heldSnap {
+					report(fmt.Sprintf("decoded-value-changed-by-a-later-decode %s", heldKey),
+						fmt.Sprintf("value decoded from %x, rendered again after decoding %s %x: %s", heldBody, key, []byte(c.Body), diffWindow(heldSnap, now)))
+				}
+				heldR = nil
+			}
+			if !base.err && n%3 == 0 {
+				// rendering may itself normalise the value (P0x9208's Encode pads a short reserve): the value
+				// is held once two successive renderings agree
+				ref, prevRef := "", base.snap
+				for k := 0; k < 4; k++ {
+					if protect(func() { ref = baseR.snap() }) != "" {
+						break
+					}
+					if ref == prevRef {
+						heldR, heldSnap, heldKey, heldBody = baseR, ref, key, append([]byte{}, c.Body...)
+						break
+					}
+					prevRef = ref
+				}
 			}
 			// history: a receiver that already parsed another body of the same target
 			prev, has := last[key]
